@@ -29,6 +29,15 @@ CHECKS = {
              "add / disable / enable / data, x, y setters / fill / parameter changes / copies / reads up to the bound for indexed, xy, histogram containers and their parametric models; "
              "every history is executed on the real objects; err, cov_mat, cor_mat, cov_mat_inverse are compared with the spec's integer matrix (scale 200), disable+enable must restore the total bit-exactly.",
         note="Trusted: TLC, harness/adapters/errormodel.py, numpy on 2x2 matrices. Two data points, source catalogue of 6 (simple/matrix, abs/rel, cov/cor form, correlations 0, 0.5, 1), both signs of the reference. Unbinned containers accept no sources and are not modelled."),
+    "C03": dict(
+        category="model_checking", design_ref="DESIGN.md 4.3, 5/C03",
+        technique="TLA+ spec FitCache.tla instantiated with the computation graph EXPORTED from a real fit of each type (node names, kinds, children, marked/frozen node sets) and a table of what each named property node really reads; TLC checks ReadCorrect/FreshIsClean/NothingPinnedAfterFit/CostNodeSelection over all interleavings of mutators and reads; the histories are replayed on real fits against the oracle the property names (a fresh fit with the same mutators and no reads, asked first)",
+        text="TLC decides on the wiring the code actually has whether any history of add/disable/enable source, add constraint, set/fix/limit parameter, replace data, do_fit (modelled as the "
+             "freeze/minimise/unfreeze passes the code performs) and reads can serve a cached value that is out of date with respect to a configuration component the node really reads. "
+             "Every generated history is executed on real XY/Indexed/Hist/Unbinned fits (both dynamic-error algorithms, both backends); each read is compared with a newly constructed fit that "
+             "received the same mutators without any read; after do_fit value-type observables are also compared with a fresh fit SET to the fitted parameters (nothing pinned).",
+        note="Trusted: TLC, harness/fitgraph.py (export + meaning table), harness/adapters/fitcache.py, harness/fitlib.py (catalogue of small fits, comparators with sigma-relative post-fit tolerances). "
+             "Excluded: singular total covariance (as the property states), data replacement while model-referenced sources exist (known finding)."),
 }
 NOT_APPLICABLE = {
     "C16": "Pure real-valued special-function identity (chi2 CDF and its inverse): no state or transitions, and TLC has neither reals nor exp; "
